@@ -52,6 +52,8 @@ pub enum Act {
     Challenge(Target, u8),
     /// response signed by the attacker's key over observed challenge #j; bool = compatible version
     ResponseM(Target, u8, bool),
+    /// like ResponseM with an incompatible version that is OLDER than the node's (minor - 1)
+    ResponseOlder(Target, u8),
     /// ten minutes pass: both nodes run the timer that drops long-disconnected peers
     Purge,
 }
@@ -208,6 +210,22 @@ fn build(sim: &Sim, a: &Act) -> Option<(Target, Vec<u8>)> {
             let v = if *j == 255 { [0x5a; 32] } else { *sim.chals.get(*j as usize)? };
             Some((*t, Message::HandshakeChallenge(HandshakeChallenge { challenge: v }).serialize()))
         }
+        Act::ResponseOlder(t, j) => {
+            let v = *sim.chals.get(*j as usize)?;
+            let cv = core_version();
+            let older = if cv.minor > 0 { Version::new(cv.major, cv.minor - 1, cv.patch) } else { Version::new(cv.major.saturating_sub(1), 9, cv.patch) };
+            let r = HandshakeResponse {
+                public_key: attacker.public,
+                signature: sign(&v, &attacker.private),
+                is_lite: false,
+                block_fetch_url: "http://m".into(),
+                challenge: [0x6b; 32],
+                services: vec![],
+                wallet_version: Version::new(0, 0, 0),
+                core_version: older,
+            };
+            Some((*t, Message::HandshakeResponse(r).serialize()))
+        }
         Act::ResponseM(t, j, okver) => {
             let v = *sim.chals.get(*j as usize)?;
             let r = HandshakeResponse {
@@ -261,6 +279,7 @@ pub fn enabled(sim: &Sim, thorough: bool) -> Vec<Act> {
     for t in [Target::SonM, Target::SonC] {
         for j in sim.chals.len().saturating_sub(if t == Target::SonM { 4 } else { 2 })..sim.chals.len() {
             v.push(Act::ResponseM(t, j as u8, false));
+            v.push(Act::ResponseOlder(t, j as u8));
         }
     }
     v
